@@ -181,3 +181,17 @@ func init() {
 		note: "partial: migrateConfig is proved for every combination of set/unset v2 keys (one VC, symbolic): each v2 setting with a v3 counterpart lands with the same value under its v3 name or template-data key, the template-data map gains no other key, every other v3 parameter is untouched, the v2 struct is not modified, and no nil pointer is dereferenced; checkDeprecatedTemplateVariables (reflection resolved statically) and tableWriter.Append only touch the deprecation table; run's call sites: input opened read-only, output opened once on the requested path, each level migrated from the same-named v2 level. YAML codec behaviour is assumed.",
 	})
 }
+
+func init() {
+	register(&propInfo{
+		id:       "C18",
+		patterns: []string{"./internal/cmd", "./config"},
+		trusted: []string{
+			"pathlib.OpenFile(O_RDWR|O_CREATE|O_EXCL) is POSIX open(2): success implies that no file existed at the path",
+			"yaml.v3 Encoder writes only to the handle it was given; YAML quoting round-trips; the strict loader accepts what the encoder wrote (outside the check)",
+			"koanf: k.Load(structs.Provider(c)) loads exactly the struct's values; k.Unmarshal fills the RootConfig from them",
+			"cobra enforces ExactArgs(1) before initRun is called (precondition len(args) == 1)",
+		},
+		note: "partial: on initRun the call-site obligations show that the file is opened exactly once, exclusively (O_EXCL|O_CREATE, no O_TRUNC), at the path given by --config or .mockery.yml; that the only write (Encode) happens after that open succeeded, exactly once, with the RootConfig that came from config.NewDefaultKoanf plus packages = {arg: {config: {all: true, everything else unset}, interfaces: {}}}; that no other file-system mutation is reachable (fs-frame); NewDefaultKoanf is proved to load the defaults provider only. Round-tripping through YAML and the subsequent run are library behaviour and not covered.",
+	})
+}
